@@ -208,8 +208,14 @@ def check_wire(ref, name, a, bats, wire):
             fails.append(("wire-for_cas", atomic, w))
         elif f[0] == "bput":
             items = lst(bats[i]) if i < len(bats) else []
-            first_ttl = items[0].split(":")[2] if items else "0"
-            if f[1] != atomic or f[3] != f[4] or int(f[4]) != len(items) or f[2] != first_ttl:
+            parts = items[0].split(":") if items else []
+            if items and len(parts) != 3:
+                # the i-th logged batch is not a batch-put batch (a request of ANOTHER call got into this call's log:
+                # only possible when a call left requests behind): a wire mismatch, with the raw entries as evidence
+                fails.append(("wire-batch-put-ttls-aligned-with-pairs", "a batch of key:value:ttl triples", "wire %s / batch %s" % (w, bats[i][:200])))
+                continue
+            first_ttl = parts[2] if items else "0"
+            if len(f) < 5 or f[1] != atomic or f[3] != f[4] or int(f[4]) != len(items) or f[2] != first_ttl:
                 fails.append(("wire-batch-put-ttls-aligned-with-pairs", "bput:%s:%s:%d:%d" % (atomic, first_ttl, len(items), len(items)), w))
         elif f[0] == "scan":
             if f[1] != a[3] or f[2] != ("1" if name == "rscan" else "0"):
@@ -442,12 +448,22 @@ def main(tier, replay):
                     hist.setdefault((chunk, int(f[1])), []).append(f[2:])
                     if f[2] == "end":
                         stats["conc_scenarios"] = stats.get("conc_scenarios", 0) + 1
-                        bad = check_history(hist.pop((chunk, int(f[1]))))
+                        try:
+                            bad = check_history(hist.pop((chunk, int(f[1]))))
+                        except Exception as ex:
+                            bad = (["unreadable history: %s: %s" % (type(ex).__name__, ex)], 0)
                         stats["conc_ops"] = stats.get("conc_ops", 0) + bad[1]
                         if bad[0]:
                             conc_fail.append((chunk, int(f[1]), bad[0]))
                 elif line.startswith("OP\t"):
-                    sid, idx, name, args, cf, lays, bats, (nrpc, nerr, outlive), impl, wire, atomic = parse_op(line)
+                    try:
+                        sid, idx, name, args, cf, lays, bats, (nrpc, nerr, outlive), impl, wire, atomic = parse_op(line)
+                    except Exception as ex:
+                        ff = line.split("\t")
+                        specs[(chunk, int(ff[1]))] = cur_spec
+                        oracle_fail.append(((chunk, int(ff[1])), int(ff[2]), ff[3], "gate-log-of-the-call-is-well-formed", "a parsable OP line",
+                                            ff[-1], "%s: %s" % (type(ex).__name__, ex), line))
+                        continue
                     if atomic is not None:
                         ref.nonatomic = not atomic     # the atomic-mode field may change between calls
                     sid = (chunk, sid)
@@ -465,7 +481,11 @@ def main(tier, replay):
                             fallback.append(line[:400])
                     if len(samples) < 6 and len(lays) > 1 and nerr and stats["ops"] % 7 == 0:
                         samples.append(line[:400])
-                    fails = check_op(ref, name, args, cf, lays, bats, impl, wire)
+                    try:
+                        fails = check_op(ref, name, args, cf, lays, bats, impl, wire)
+                    except Exception as ex:      # whatever a misbehaving tree makes the gate log must end as a verdict, not as a crash
+                        fails = [("gate-log-of-the-call-is-well-formed", "a log line the oracles can read",
+                                  "%s: %s in %s" % (type(ex).__name__, ex, line[:300]))]
                     if outlive:
                         # a returned call has no effect after its return: every request it started was cancelled or awaited
                         fails.append(("no-request-outlives-its-call", "0 requests in flight at return", "%d request(s) of the call still in flight when it returned" % outlive))
